@@ -106,13 +106,38 @@ def run(rep, tier, rng):
                 hdr = bytearray(refesri.encode_header(0, [0] * 8, (100 + len(rec)) // 2))
                 hdr[32:36] = struct.pack("<i", htype)
                 fcases.append(C.read_case(-1, bytes(hdr) + rec, None, [("it", -1)]))
-                fmeta.append((code, htype, len(extra)))
+                fmeta.append((code, htype, len(extra), -1))
+            # ... and by a typed reader (which must report an invalid code as invalid, not as a type mismatch)
+            if not extra:
+                hdr = refesri.encode_header(0, [0] * 8, (100 + len(rec)) // 2)
+                for req in (1, 25):
+                    fcases.append(C.read_case(req, hdr + rec, None, [("it", -1)]))
+                    fmeta.append((code, 0, 0, req))
+    # the type code of the .shx header is decoded like that of the .shp
+    onept = refesri.encode_shp({"type": 1, "box": [0] * 8, "records": [{"num": 1, "shape": {"code": 1, "x": 0, "y": 0}}]})
+    for code in fcodes:
+        shx = bytearray(refesri.encode_header(1, [0] * 8, 54) + struct.pack(">ii", 50, 10))
+        shx[32:36] = struct.pack("<i", code)
+        fcases.append(C.read_case(-1, onept, bytes(shx), [("it", -1)]))
+        fmeta.append((code, "shx", 0, -1))
 
     def oracle_file(c, r, m):
-        code, htype, extra = m
+        code, htype, extra, req = m
         rd = C.parse_read(r, [("it", -1)])
         if rd.get("panic"):
             return "panic reading a record of type code %d" % code
+        if htype == "shx":
+            if code in ESRI:
+                return None if "ops" in rd else "an index whose header carries ESRI code %d was refused" % code
+            return None if rd.get("open_err") == [6, code] else ".shx header with type code %d was not refused with InvalidShapeType(%d): %r" % (code, code, {k: rd[k] for k in rd if k != "ops"})
+        if req != -1:
+            if "ops" not in rd:
+                return "open failed"
+            items = rd["ops"][0]["items"]
+            want = ("err", 6, code) if code not in ESRI else (("err", 8, req, code) if code != req else None)
+            if want is not None and (not items or tuple(items[0]) != want):
+                return "a typed reader (%d) answered a record of type code %d with %r, expected %r" % (req, code, items[:1], want)
+            return None
         if htype not in ESRI:
             return None if rd.get("open_err") == [6, htype] else "header with type code %d was not refused with InvalidShapeType(%d): %r" % (htype, htype, rd)
         if "open_err" in rd:
